@@ -129,6 +129,61 @@ async fn run_uni<const INSTR: usize, const MS: usize>(variant: &str, timeout: bo
     g
 }
 
+/// C06 when the end signal was already given before the graceful close is asked for (oracle only): sequential executor
+/// (`concurrency_limit = 1`), slow item futures, then one of
+///   `expire`     : a bounded `close(5 ms)` that expires (answers false), followed by an unbounded `close()`
+///   `cancel`     : `cancel_all_streams()` on the channel, followed by an unbounded `close()`
+///   `concurrent` : two unbounded `close()` calls, the second issued while the first is waiting
+/// every unbounded `close()` may only return (true) after all accepted events were processed
+async fn run_reclose(mode: &str, fallible: bool, n: u32) -> Vec<String> {
+    let log = Arc::new(Mutex::new(Vec::<String>::new()));
+    let (l1, l2) = (log.clone(), log.clone());
+    let slow = move |v: u32, l: Arc<Mutex<Vec<String>>>| async move { tokio::time::sleep(Duration::from_millis(20)).await; l.lock().unwrap().push(format!("finished {v}")); v };
+    let uni = if fallible {
+        UniMoveFullSync::<u32, 64, 1, NONE>::new("x").spawn_executors(1, Duration::ZERO,
+            move |stream| { let l = l1.clone(); stream.map(move |v| { let f = slow(v, l.clone()); async move { Ok::<u32, DynErr>(f.await) } }) },
+            |_err| async {},
+            move |_e| { let l = l2.clone(); async move { l.lock().unwrap().push("callback".into()); } })
+    } else {
+        UniMoveFullSync::<u32, 64, 1, NONE>::new("x").spawn_futures_executors(1, Duration::ZERO,
+            move |stream| { let l = l1.clone(); stream.map(move |v| slow(v, l.clone())) },
+            move |_e| { let l = l2.clone(); async move { l.lock().unwrap().push("callback".into()); } })
+    };
+    for k in 0..n { assert!(uni.send(10 + k).is_ok()); log.lock().unwrap().push(format!("accepted {}", 10 + k)); }
+    tokio::time::sleep(Duration::from_millis(1)).await;
+    match mode {
+        "expire" => {
+            log.lock().unwrap().push("boundedclosecalled".into());
+            let r = uni.close(Duration::from_millis(5)).await;
+            log.lock().unwrap().push(format!("boundedclosereturned {r}"));
+            log.lock().unwrap().push("closecalled".into());
+            let r = uni.close(Duration::ZERO).await;
+            log.lock().unwrap().push(format!("closereturned {r}"));
+        }
+        "cancel" => {
+            log.lock().unwrap().push("cancelall".into());
+            uni.channel.cancel_all_streams();
+            tokio::time::sleep(Duration::from_millis(2)).await;
+            log.lock().unwrap().push("closecalled".into());
+            let r = uni.close(Duration::ZERO).await;
+            log.lock().unwrap().push(format!("closereturned {r}"));
+        }
+        _ => {
+            let (u2, l3) = (uni.clone(), log.clone());
+            l3.lock().unwrap().push("closecalled".into());
+            let first = tokio::spawn(async move { let r = u2.close(Duration::ZERO).await; l3.lock().unwrap().push(format!("closereturned {r}")); });
+            tokio::time::sleep(Duration::from_millis(3)).await;
+            log.lock().unwrap().push("closecalled".into());
+            let r = uni.close(Duration::ZERO).await;
+            log.lock().unwrap().push(format!("closereturned {r}"));
+            let _ = first.await;
+        }
+    }
+    tokio::time::sleep(Duration::from_millis(50 * (n as u64 + 1))).await;
+    let r = log.lock().unwrap().clone();
+    r
+}
+
 /// C12 (third sentence) + C06 for a Multi: the log channel's oldies executor hands over to the newies executor
 async fn run_transition(seed: u64, sequential: bool, limit: u32, n_old: u32, n_new: u32, slow_old: bool) -> Vec<String> {
     let name = format!("vh-transition-{}-{}", std::process::id(), seed);
@@ -310,6 +365,38 @@ fn main() {
             }
         }
         out.finish();
+        rep.print();
+        return
+    }
+    if sub == "reclose" {
+        for i in 0..runs {
+            let seed = if a.kv.contains_key("seedx") { a.num("seedx", 0) } else { seed0.wrapping_mul(1_000_003).wrapping_add(i) };
+            mark_run(seed);
+            let mut rng = Rng::new(seed ^ 0x2E);
+            let mode = ["expire", "cancel", "concurrent"][rng.below(3) as usize];
+            let fallible = rng.chance(1, 2);
+            let n = rng.range(1, 6) as u32;
+            let rt = runtime(multi);
+            let trace = rt.block_on(run_reclose(mode, fallible, n));
+            drop(rt);
+            let mut viol: Vec<(String, String)> = vec![];
+            for (p, l) in trace.iter().enumerate() {
+                if l == "closereturned true" {
+                    let done = trace[..p].iter().filter(|x| x.starts_with("finished ")).count();
+                    if done < n as usize { viol.push(("close_before_processed".into(), format!("mode `{mode}` (sequential futures executor, {n} slow events): an unbounded close() returned true (log line {p}) after only {done} of the {n} accepted events had been processed"))); }
+                }
+                if l == "closereturned false" { viol.push(("close_failed".into(), format!("mode `{mode}`: close() with an unbounded timeout answered false"))); }
+            }
+            let cbs = trace.iter().filter(|x| *x == "callback").count();
+            if cbs != 1 { viol.push(("close_callback_count".into(), format!("mode `{mode}`: the close callback ran {cbs} times"))); }
+            viol.dedup_by(|a, b| a.0 == b.0);
+            rep.add_run(&trace, n > 1, &format!("reclose/{mode}/f{}", fallible as u8), "Completed");
+            for (k, d) in viol {
+                let header = vec![format!("cmd exec sub=reclose runs=1 seedx={seed} rt={}", if multi { "multi" } else { "current" }), format!("violation {k}: {d}")];
+                let p = write_replay(&replay_dir, &format!("{pid}-exec-reclose-seed{seed}-{k}"), &header, &trace);
+                rep.violations.push(Violation { run: i, seed, kind: k, detail: d, replay: p });
+            }
+        }
         rep.print();
         return
     }
